@@ -160,6 +160,8 @@ TEXT = {
                       "unstranded, join accepted) - nodes are exactly the connected components, hence maximal and branch-free. Rests on the id-level "
                       "components theorem ('sealed' invariant), reciprocity of links from reciprocity of extensions, and C01's node assembly. "
                       "C02_from_reads: the same for the table built from any read set (hypotheses discharged by C05_table_wf). "
+                      "C02_order_independent (uniqueness up to cycle cut and orientation): for any two listings of the same table - any two hash "
+                      "orders - both compressions return and every node of either result has exactly the canonical k-mers of a node of the other. "
                       "Independently, components recomputed from the table by label propagation are compared with the crate's nodes.",
         "design_ref": "DESIGN.md section 6, C02",
         "level_note": COMMON_NOTE + "Symmetric join is a hypothesis (both shipped specs satisfy it).",
@@ -294,9 +296,10 @@ TEXT = {
                       "ends; terminal k-mers and extension bytes from build_node's assembly, complemented when an old node lies reverse-"
                       "complemented), hence C09_result_wellformed (the result satisfies GInv, find_link is complete on it) and C09_idempotent: "
                       "re-compressing the result returns, every path of the second call is exactly one node of the first result, node counts and "
-                      "partitions agree. With a non-empty censor set the comparison with the k-mer table is an executable predicate.",
+                      "partitions agree. With a non-empty censor set the property's claims are C09_kmers_cover, C09_char, buildNode_payload and "
+                      "C09_no_dangling; the additional comparison with a k-mer table rebuilt from the surviving nodes is an executable cross-check.",
         "design_ref": "DESIGN.md section 6, C09",
-        "level_note": COMMON_NOTE + "Partial: censored re-compression against the k-mer table by execution.",
+        "level_note": COMMON_NOTE + "Input graphs satisfy GInv (every graph the crate builds does: C03_ginv_of_compress, C09_result_wellformed); join symmetric.",
         "technique": "Lean 4 proof (invariants of the well-founded walk and of the in-place fix_exts fold, overlap algebra of merged sequences) + differential correspondence with executable predicates",
     },
     "C19": {
